@@ -8,6 +8,7 @@ def run(cx):
     S.header_fields(cx)
     S.decode_inventory(cx)
     S.size_checks(cx)
+    S.sample_events(cx)
     cx.floor('FORMULA', cx.rules.get('FORMULA', 0), 30, 'decode formulas')
     cx.decided += [
         'histogram mode, ASCII/unknown data types, non byte-aligned integers and other byte orders are refused before any decoding (dominance, conditional for $PnB)',
